@@ -204,6 +204,10 @@ class ZbossNcpProtocol(asyncio.Protocol):
 
         length, _ = t.uint16_t.deserialize(self._buffer[2:4])
 
+        # The length field counts the header itself
+        if length < 5:
+            raise InvalidFrame()
+
         # Don't bother deserializing anything if the packet is too short
         if len(self._buffer) < length + 2:
             raise BufferTooShort()
